@@ -737,8 +737,8 @@ def _run(ctx: Ctx):
     seeds_used = set()
 
     # ------------------------------------------------------------------ A. constructor / from_pruned on small grids
-    n_small = 70 if ctx.quick else 1400
-    n_pruned = 40 if ctx.quick else 800
+    n_small = 60 if ctx.quick else 1400
+    n_pruned = 32 if ctx.quick else 800
     calls = []
     meths = [m for m, _, _ in METHODS]
     for k in range(n_small):
@@ -1193,6 +1193,16 @@ def replay(rp):
                                                      center=None if rp["center"] is None else np.array(rp["center"]),
                                                      rotate=rp["rotate"], method=rp["method"]))
         print("observed:", v if st == "exc" else f"built {len(v.degrees)} shells, degrees {list(map(int, v.degrees))[:12]}...")
+        if st == "exc" and not rp.get("default_rgrid"):
+            # a radial grid that is not of the size this source tree prescribes for the element may be rejected
+            from grid.atomgrid import _get_rgrid_size
+
+            cfg, _ = extract_cfg()
+            ctype = rp["preset"] in cfg["count_presets"] or (rp["preset"] == cfg["thr_preset"] and rp["atnum"] > cfg["thr"])
+            s2, n2 = observe(lambda: int(_get_rgrid_size(rp["preset"], rp["atnum"])[0]))
+            if ctype and s2 == "ok" and n2 != len(rp["rgrid_points"]) and v.startswith("ValueError: The shape of radial grid"):
+                print(f"not a failure on this tree: the preset prescribes {n2} radial points, the replayed grid has {len(rp['rgrid_points'])}")
+                return 0
         return 1 if st == "exc" else 0
     if "call" in rp:
         d = rp["call"]
